@@ -436,6 +436,101 @@ def check_memo_discipline(model, rep):
         raise AnalysisError(f'only {n} calls of derivative(..., seen) found')
 
 
+# returns of a derivative rule that legitimately leave out the contribution of an operand, with the fact that licenses it (confirmed by reading)
+PARTIAL_OK = {
+    ('Power', frozenset({'self.power'})): 'isinstance(self.power, Constant)',                       # a constant exponent has no derivative
+    ('Orthonormal', frozenset({'self.vector'})): '_certainly_equal(G.shape[-1], G.shape[-2] - 1)',  # n-1 basis vectors determine the unit normal
+}
+
+
+def check_sum_rule_complete(model, rep):
+    """R04.9: a derivative rule with several differentiable operands returns the SUM of the contributions of all of them.  For every
+    `_derivative(self, var, seen)` that differentiates two or more operands, each return that contains a derivative contains the
+    derivative of every operand (locals resolved), unless the branch is one of the licensed special cases above.  A case split that
+    returns the contribution of one operand without the other drops a term whenever both depend on the target."""
+    from sa.guards import facts_at
+    n = 0
+    for k, f in sorted(model.functions.items()):
+        if f.name != '_derivative' or isinstance(f.node, ast.Lambda) or f.cls is None or f.module.short not in ('evaluable', 'function'):
+            continue
+
+        def ops(node):
+            return {src(deep_resolved(f.node, c.args[0])).replace(' ', '') for c in ast.walk(node) if isinstance(c, ast.Call) and src(c.func) in ('derivative', 'evaluable.derivative') and len(c.args) == 3}
+        rets = find_stmts(f.body, lambda s_: isinstance(s_, ast.Return) and s_.value is not None)
+        per = [(r, ops(deep_resolved(f.node, r.value))) for r in rets]
+        D = set().union(*[R for _, R in per]) if per else set()
+        if len(D) < 2:
+            continue
+        for r, R in per:
+            if not R:
+                continue
+            n += 1
+            missing = D - R
+            if not missing:
+                rep.ob('R04.9', f.key, f.where(r), True, f'{f.cls.name}: the return sums the contributions of {sorted(D)}', statement=f'complete {sorted(R)}')
+                continue
+            lic = PARTIAL_OK.get((f.cls.name, frozenset(missing)))
+            facts = facts_at(f.node, lambda s_, r=r: s_ is r)
+            ok = lic is not None and any(src(nd) == lic and v for nd, v in facts.facts.values())
+            rep.ob('R04.9', f.key, f.where(r), ok, f'{f.cls.name}: the contribution of {sorted(missing)} is left out only under `{lic}`' if ok else
+                   f'{f.cls.name}._derivative returns `{src(r.value)[:60]}` with the contribution of {sorted(R)} but without that of {sorted(missing)}: when both depend on the target the derivative '
+                   'silently lacks a term (same shape and dtype, wrong numbers)', statement=f'partial {sorted(missing)}')
+    if n < 6:
+        raise AnalysisError(f'R04.9: only {n} multi-operand derivative returns found')
+
+
+KINDS = {'bool': bool, 'int': int, 'float': float, 'complex': complex}
+
+
+def _dtype_true_kinds(test):
+    """For a test on `<X>.dtype` (==, !=, in, not in with bool/int/float/complex): (X text, set of kinds for which it is true); else None."""
+    if not (isinstance(test, ast.Compare) and len(test.ops) == 1 and isinstance(test.left, ast.Attribute) and test.left.attr == 'dtype'):
+        return None
+    rhs = test.comparators[0]
+    names = [src(e) for e in rhs.elts] if isinstance(rhs, (ast.Tuple, ast.List, ast.Set)) else [src(rhs)]
+    if not all(n_ in KINDS for n_ in names):
+        return None
+    op = test.ops[0]
+    if isinstance(op, (ast.Eq, ast.In, ast.Is)):
+        true = set(names)
+    elif isinstance(op, (ast.NotEq, ast.NotIn, ast.IsNot)):
+        true = set(KINDS) - set(names)
+    else:
+        return None
+    return src(test.left.value), true
+
+
+def check_zero_derivative_kinds(model, rep):
+    """R04.8: a derivative rule may treat an operand (or itself) as not differentiable - skip its contribution or return zeros - only for
+    boolean and integer data.  Every dtype test in a _derivative/derivative function that leads to `continue`, to Zeros(...) or to the
+    base-class zero derivative must be true for bool/int at most; a test such as `dtype != float` also drops complex operands."""
+    n = 0
+    for k, f in sorted(model.functions.items()):
+        if f.name not in ('_derivative', 'derivative') or isinstance(f.node, ast.Lambda) or f.module.short not in ('evaluable', 'function'):
+            continue
+        for s_ in ast.walk(f.node):
+            if not isinstance(s_, ast.If) or not s_.body:
+                continue
+            b = s_.body[0]
+            zero = isinstance(b, ast.Continue) or (isinstance(b, ast.Return) and b.value is not None and
+                                                  (src(b.value).startswith(('Zeros(', 'evaluable.Zeros(', 'zeros(', 'super()._derivative('))))
+            if not zero:
+                continue
+            disjuncts = s_.test.values if isinstance(s_.test, ast.BoolOp) and isinstance(s_.test.op, ast.Or) else [s_.test]
+            for d in disjuncts:
+                r = _dtype_true_kinds(d)
+                if r is None:
+                    continue
+                n += 1
+                who, kinds = r
+                ok = kinds <= {'bool', 'int'}
+                rep.ob('R04.8', f.key, f.where(s_), ok, f'`{src(d)}` declares only boolean/integer data non-differentiable' if ok else
+                       f'`{src(d)}` treats {sorted(kinds - {"bool", "int"})} data of `{who}` as not differentiable: its contribution is skipped / the derivative is zero although the operand is '
+                       'a differentiable (complex or float) array - the derivative silently lacks a term', statement=f'zero-derivative kinds {who}')
+    if n < 4:
+        raise AnalysisError(f'R04.8: only {n} dtype tests leading to a zero derivative found')
+
+
 def run(model, rep, tier):
     with open(ORACLE) as f:
         oracle = json.load(f)
@@ -461,6 +556,10 @@ def run(model, rep, tier):
     check_linear(model, rep)
     check_accumulation(model, rep)
     check_memo_discipline(model, rep)
+    rep.rule('R04.9', 'a derivative rule with several operands returns the sum of ALL contributions on every returning branch (licensed special cases tabled)')
+    check_sum_rule_complete(model, rep)
+    rep.rule('R04.8', 'only boolean and integer data are treated as not differentiable (dtype tests leading to continue / Zeros / base-class zero)')
+    check_zero_derivative_kinds(model, rep)
     from rules.c13 import check_monomial_ravel
     check_monomial_ravel(model, rep, rule='R04.6')
     rep.require('R04.1', 50)
